@@ -10,6 +10,15 @@ use bvh::{Limits, eval_in, guarded, new_context};
 use std::io::Read;
 
 fn main() {
+    // Debug builds of the engine use large native frames: give the evaluation thread a stack that the engine's own
+    // recursion limit (not the operating system's 8 MB default) bounds. Unbounded native recursion still overflows it.
+    let t = std::thread::Builder::new().stack_size(1 << 30).spawn(real_main).expect("thread");
+    if t.join().is_err() {
+        std::process::exit(101);
+    }
+}
+
+fn real_main() {
     bvh::quiet_panics();
     // the input is bytes: script bodies need not be valid UTF-8 (C02 feeds raw byte strings)
     let mut input: Vec<u8> = Vec::new();
